@@ -18,17 +18,21 @@ theorem auth_error_latched_in_both_readers :
     skel_Machine_ReadHeader.contains "call:b.recvCipher.Decrypt" = true ∧
     skel_Machine_ReadBody.contains "call:b.recvCipher.Decrypt" = true := by decide
 
+/-- between the `io.ReadFull` of a reader and its decrypt: an assignment to the latch, behind a
+    condition on the number of bytes consumed (written as its own `if n > 0` or merged into the
+    error test) -/
+def latchGuarded (s : List String) : Bool :=
+  let seg := (s.take (s.idxOf "call:b.recvCipher.Decrypt")).drop (s.idxOf "call:io.ReadFull")
+  let a := seg.idxOf "assign:b.readAuthErr"
+  a < seg.length && (seg.idxOf "cond:n > 0" < a || seg.idxOf "cond:err != nil && n > 0" < a) &&
+    seg.head? == some "call:io.ReadFull"
+
 /-- **a read that fails inside a record is latched too** (repair 98daed6; the
     pause branches of the model's `readMessage`): between `io.ReadFull` and the
     decrypt, both readers set the latch when some bytes had been consumed, and
     `ReadMessage` sets it whenever the body read fails after its header was read -/
 theorem partial_read_latched :
-    (let s := skel_Machine_ReadHeader
-     ((s.take (s.idxOf "call:b.recvCipher.Decrypt")).drop (s.idxOf "call:io.ReadFull")).take 6 =
-       ["call:io.ReadFull", "if", "cond:err != nil", "if", "cond:n > 0", "assign:b.readAuthErr"]) ∧
-    (let s := skel_Machine_ReadBody
-     ((s.take (s.idxOf "call:b.recvCipher.Decrypt")).drop (s.idxOf "call:io.ReadFull")).take 6 =
-       ["call:io.ReadFull", "if", "cond:err != nil", "if", "cond:n > 0", "assign:b.readAuthErr"]) ∧
+    latchGuarded skel_Machine_ReadHeader = true ∧ latchGuarded skel_Machine_ReadBody = true ∧
     (let s := skel_Machine_ReadMessage
      (s.drop (s.idxOf "call:b.ReadBody")).take 4 =
        ["call:b.ReadBody", "if", "cond:err != nil && b.readAuthErr == nil", "assign:b.readAuthErr"]) := by decide
